@@ -241,7 +241,7 @@ theorem interpAxis_spec {α : Type} [Inhabited α] (lin : α → α → Rat → 
     (hxs : ax.labels = xs.map Label.num) (hne : xs ≠ []) (hnd : xs.Nodup) :
     ∃ r, interpAxis lin a k (nx.map Label.num) nk left right = .ok r ∧
       InterpolatesAlong lin a r pos ax xs nx nk left right := by
-  have hlt : pos < a.axes.length := axisPos_lt _ _ _ hpos
+  have hlt : pos < a.axes.length := C17P.axisPos_lt _ _ _ hpos
   rw [interpAxis_eq_core, hpos]
   show ∃ r, interpCore lin a pos (nx.map Label.num) nk left right = .ok r ∧ _
   rw [interpCore_closed lin a pos ax xs nx nk left right hax hxs hne]
@@ -483,7 +483,7 @@ theorem interpAxis_order_independent {α : Type} [Inhabited α] (lin : α → α
       interpAxis lin a k (nx.map Label.num) nk left right := by
   have hlen : ps.length = xs.length := by simpa using hps.length_eq
   have hpos' : axisPos (takeAxisPos a pos ps).axes k = .ok pos := by
-    rw [axisPos_congr _ _ k (takeAxisPos_names a pos ps)]; exact hpos
+    rw [C17P.axisPos_congr _ _ k (takeAxisPos_names a pos ps)]; exact hpos
   have hax' : (takeAxisPos a pos ps).axes[pos]? = some (axisTake ax ps) := by
     rw [takeAxisPos_axes_getElem?, hax]; simp
   have hlab : (axisTake ax ps).labels = (ps.map (fun p => xs.getD p 0)).map Label.num := by
@@ -658,7 +658,7 @@ theorem interpAxis_successive {α : Type} [Inhabited α] (lin : α → α → Ra
       (∀ i, i ≠ p1 → i ≠ p2 → r2.axes[i]? = a.axes[i]?) ∧ r2.attrs = a.attrs := by
   obtain ⟨r1, hr1, h1⟩ := interpAxis_spec lin a k1 p1 ax1 xs1 nx1 nk1 left right hwf hpos1 hax1 hxs1 hne1 hnd1
   have hpos2' : axisPos r1.axes k2 = .ok p2 := by
-    rw [axisPos_congr _ _ k2 (h1.names hax1)]; exact hpos2
+    rw [C17P.axisPos_congr _ _ k2 (h1.names hax1)]; exact hpos2
   have hax2' : r1.axes[p2]? = some ax2 := by rw [h1.others p2 (Ne.symm hne12)]; exact hax2
   obtain ⟨r2, hr2, h2⟩ := interpAxis_spec lin r1 k2 p2 ax2 xs2 nx2 nk2 left right h1.wf hpos2' hax2' hxs2 hne2 hnd2
   refine ⟨r1, r2, hr1, hr2, h1, h2, ?_, h2.axis, ?_, ?_⟩
